@@ -80,7 +80,12 @@ def validate(proc, check_types=True, depth=0):
     def typ_exprs(t, env, what):
         if isinstance(t, T.Tensor):
             for h in t.hi:
-                ctrl(h, env, f"extent of {what}")
+                try:
+                    ctrl(h, env, f"extent of {what}")
+                except Malformed as m:
+                    if m.kind == "use-out-of-scope":
+                        raise Malformed("use-out-of-scope-in-extent", f"extent of {what}: {m.detail}")
+                    raise
 
     def stmts(block, env, where):
         if not isinstance(block, list):
